@@ -171,7 +171,7 @@ def gen_cases(ck):
                 if k <= 2:
                     kinds = all_kinds if (thorough or k <= 1 or (pi <= 2 and mode == 'bsd') or pi == 1) else alternating
                 elif thorough:
-                    kinds = all_kinds if mode == 'bsd' else mixed_some
+                    kinds = all_kinds if (mode == 'bsd' and pi <= 1) else mixed_some if (mode == 'bsd' and pi == 2) else alternating
                 else:
                     # quick: 3-signal schedules exhaustively (SIGINT) for the programs with <= 2 registrations under bsd
                     if mode == 'sysv' or pi != 1:
@@ -192,7 +192,7 @@ def gen_cases(ck):
                     if k == 2 and not thorough and (out not in ('closed', 'part') or mode == 'sysv' or pi == 2):
                         continue
                     if k <= 2:
-                        kinds = all_kinds if (k <= 1 or thorough) else alternating
+                        kinds = all_kinds if (k <= 1 or (thorough and out in ('closed', 'part'))) else alternating
                     elif out in UNWRITABLE and mode == 'bsd' and (thorough or (out == 'closed' and pi == 1)):
                         kinds = int_only
                     else:
@@ -210,7 +210,7 @@ def gen_cases(ck):
         n = nsteps(prog)
         for mode, out in (('bsd', 'file'), ('sysv', 'file'), ('bsd', 'closed')):
             for k in (1, 2, 3):
-                kinds = all_kinds if (thorough or k <= 1) else alternating
+                kinds = all_kinds if (k <= 1 or (thorough and (k == 2 or (mode, out) == ('bsd', 'file')))) else alternating
                 if k == 3 and not thorough:
                     continue
                 if k == 2 and not thorough and pi == 2 and (mode, out) != ('bsd', 'file'):
@@ -256,9 +256,9 @@ def gen_cases(ck):
                 continue
             for k in (0, 1, 2, 3):
                 if var == 'APP':
-                    kinds = all_kinds if k <= 2 else (all_kinds if thorough else int_only)
+                    kinds = all_kinds if k <= 2 else (all_kinds if (thorough and mode == 'bsd') else alternating if thorough else int_only)
                 else:
-                    kinds = all_kinds if (k <= 1 or thorough) else alternating
+                    kinds = all_kinds if (k <= 1 or (thorough and k == 2)) else alternating
                 if k == 3 and not thorough:
                     continue
                 cnt = 0
@@ -897,7 +897,7 @@ def coverage_report(res, label):
     return '\n'.join(out), mt
 
 
-N_THEOREMS = 49
+N_THEOREMS = 50
 CURRENT_LAYOUT = 'fixed+dtor'     # = Layout.current in lean/MpVerif/C15/Model.lean (the order the main theorems are stated for)
 
 
